@@ -211,8 +211,10 @@ def tree_cells(I, sim):
         for o in range(8):
             q = I.mem.load(Ptr(p.obj, p.off + octoff + 8 * o), PtrT(I8))
             if isinstance(q, Ptr) and q != NULL: walk(q, depth + 1, idx)
-    r0 = I.mem.load(root_arr, PtrT(I8))
-    if isinstance(r0, Ptr) and r0 != NULL: walk(r0, 0, None)
+    nroot = sim.get('N_root') or 1
+    for k in range(nroot if isinstance(nroot, int) else 1):
+        r0 = I.mem.load(Ptr(root_arr.obj, root_arr.off + 8 * k), PtrT(I8))
+        if isinstance(r0, Ptr) and r0 != NULL: walk(r0, 0, None)
     return out
 
 def run_tree(u):
@@ -228,7 +230,8 @@ def run_tree(u):
         dom = Real(); I = new_interp(dom, ctx); I.concrete_env = True; I.loop_bound = 64
         sim = Sim(I)
         for i in range(N): sim.add(m=1.0)
-        I.call('@reb_simulation_configure_box', [sim.ptr, Fraction(BOX), 1, 1, 1])
+        roots = u.get('roots', (1, 1, 1))
+        I.call('@reb_simulation_configure_box', [sim.ptr, Fraction(BOX), roots[0], roots[1], roots[2]])
         sim.set('gravity', L.enumerators['REB_GRAVITY_TREE']); sim.set('opening_angle2', Fraction(0))
         G = dom.fresh('G'); sim.set('G', G)
         TH = EPS = None
@@ -240,7 +243,7 @@ def run_tree(u):
             for c in ('x', 'y', 'z'):
                 if c in free_axes:
                     V[(i, c)] = dom.fresh('%s%d' % (c, i)); ctx.assume(z3.And(V[(i, c)] > -BOX / 2, V[(i, c)] < BOX / 2))
-                else: V[(i, c)] = Fraction(1, 3) + i          # concrete, distinct, off every cell boundary
+                else: V[(i, c)] = (Fraction(1, 3) + i) if not u.get('fixed') else Fraction(u['fixed'][i][c])          # concrete, distinct, off every cell boundary
                 sim.particle(i).set(c, V[(i, c)])
             V[(i, 'm')] = dom.fresh('m%d' % i); ctx.assume(V[(i, 'm')] > 0); sim.particle(i).set('m', V[(i, 'm')])
         # bounded depth: along the first free axis any two particles are at least `sep` apart
@@ -248,7 +251,9 @@ def run_tree(u):
         for i in range(N):
             for j in range(i):
                 d = V[(i, a0)] - V[(j, a0)]; ctx.assume(z3.Or(d >= sep, -d >= sep))
-        I.stubs['@reb_get_rootbox_for_particle'] = lambda I_, r, p: 0       # one root box (N_root = 1): the index is 0 for every particle in the box
+        if tuple(u.get('roots', (1, 1, 1))) == (1, 1, 1):
+            I.stubs['@reb_get_rootbox_for_particle'] = lambda I_, r, p: 0       # one root box (N_root = 1): the index is 0 for every particle in the box
+        # several root boxes: the free axis must have a single box (the root index is then computed from concrete coordinates)
         for i in range(N): I.call('@reb_tree_add_particle_to_tree', [sim.ptr, i])
         I.call('@reb_simulation_update_tree_gravity_data', [sim.ptr])
         I.call('@reb_calculate_acceleration', [sim.ptr])
@@ -365,6 +370,12 @@ def run_tree(u):
     return rep
 
 def native_tree(u, vals):
+    """crash-isolated wrapper: a crash of the native library inside the twin / replay is itself a reproduced violation"""
+    try: return isolated(_native_tree, u, vals, timeout=300)
+    except NativeCrash as e:
+        return True, "the native library crashed (signal %s) in the tree twin: build / update / tree force on %s" % (e.sig, 'the model values' if vals else 'random configurations')
+
+def _native_tree(u, vals):
     """native: tree force with opening angle 0 against the direct BASIC force on the same particles, before and after moving them"""
     import random, math
     N_ = nat(); L = N_.L; N = u['N']; rnd = random.Random(5)
@@ -392,17 +403,18 @@ def native_tree(u, vals):
         err = max(abs(g_ - w_) for gi, wi in zip(got, want) for g_, w_ in zip(gi, wi)) / max(abs(w_) for wi in want for w_ in wi)
         return err > 1e-12, "native tree force, theta^2=1, softening 0.7, tight pair + distant particle: %s (relative deviation from the Barnes-Hut definition %.2e)" % ("differs" if err > 1e-12 else "agrees", err)
     trials = [vals] if vals else [None] * 20
+    roots = tuple(u.get('roots', (1, 1, 1)))
     for tv in trials:
         pts = []
         for i in range(N):
             if tv: pts.append(dict(x=tv['x%d' % i], y=tv['y%d' % i], z=tv['z%d' % i], m=max(tv['m%d' % i], 1e-3)))
-            else: pts.append(dict(x=rnd.uniform(-3.9, 3.9), y=rnd.uniform(-3.9, 3.9), z=rnd.uniform(-3.9, 3.9), m=rnd.uniform(0.5, 2)))
+            else: pts.append(dict(x=rnd.uniform(-3.9, 3.9) * roots[0], y=rnd.uniform(-3.9, 3.9) * roots[1], z=rnd.uniform(-3.9, 3.9) * roots[2], m=rnd.uniform(0.5, 2)))
         res = []
         for grav in ('TREE', 'BASIC'):
             ns = N_.create()
             try:
                 f = N_.lib.reb_simulation_configure_box; f.argtypes = [ctypes.c_void_p, ctypes.c_double, ctypes.c_int, ctypes.c_int, ctypes.c_int]; f.restype = None
-                f(ns.addr, 8.0, 1, 1, 1)
+                f(ns.addr, 8.0, roots[0], roots[1], roots[2])
                 ns.set('gravity', L.enumerators['REB_GRAVITY_' + grav]); ns.set('opening_angle2', 0.0)
                 for p in pts: ns.add(**p)
                 out = []
@@ -439,7 +451,9 @@ def main():
     build.module(); build.layout(); build.build_native()
     W = 1 if tier == 'quick' else 3
     us = [dict(what='wrap', kind='PERIODIC', W=W, N=1), dict(what='wrap', kind='SHEAR', W=W, N=1), dict(what='open', N=2), dict(what='ghost')]
-    us += [dict(what='tree', N=2, sep=2, axes=('x', 'y')), dict(what='tree', N=2, sep=2, axes=('x',), move=True), dict(what='tree', N=3, sep=2, axes=('x',)), dict(what='tree', N=2, sep=2, axes=('x',), theta=True)]
+    us += [dict(what='tree', N=2, sep=2, axes=('x',), roots=(1, 1, 2), fixed=[dict(y='1/3', z='-11/3'), dict(y='4/3', z='13/3')]),
+           dict(what='tree', N=3, sep=2, axes=('x',), roots=(1, 2, 3), fixed=[dict(y='-11/3', z='-31/3'), dict(y='13/3', z='1/3'), dict(y='10/3', z='31/3')], move=True),
+           dict(what='tree', N=2, sep=2, axes=('x', 'y')), dict(what='tree', N=2, sep=2, axes=('x',), move=True), dict(what='tree', N=3, sep=2, axes=('x',)), dict(what='tree', N=2, sep=2, axes=('x',), theta=True)]
     if tier == 'thorough': us += [dict(what='tree', N=3, sep=2, axes=('x',), theta=True, t_ms=30000), dict(what='tree', N=2, sep=1, axes=('x', 'y'), max_paths=20000), dict(what='tree', N=2, sep=2, axes=('x', 'y'), theta=True, max_paths=20000)]
     if tier == 'thorough': us += [dict(what='wrap', kind='PERIODIC', W=1, N=2), dict(what='open', N=3)]
     rep = run_units(us, worker)
